@@ -53,7 +53,12 @@ func (e *SeqArrowExpr) Eval(ctx context.Context, local Scope) (_ Value, err erro
 			if err != nil {
 				return nil, WrapContextErr(err, e, local)
 			}
-			return SetCall(ctx, s.(Set), v)
+			f, is := s.(Set)
+			if !is {
+				return nil, WrapContextErr(errors.Errorf(
+					"%s rhs must return a function, not %s", e.op, ValueTypeAsString(s)), e, local)
+			}
+			return SetCall(ctx, f, v)
 		}
 	} else {
 		call = func(_, v Value) (Value, error) {
